@@ -36,7 +36,23 @@ def build():
         if os.path.isdir(p):
             libs += ["-Wl,-rpath," + p, "-Wl,-rpath-link," + p]
     exe = link(os.path.join(out, "h52"), objs, SAN + ["-rdynamic", WRAP] + libs + ["-ldl", "-lpthread"])
-    return exe
+    # race variant (see C29): tfel-check's own sources and ThreadPool are compiled with -fsanitize=thread and checked by the simulator's
+    # happens-before detector; ProcessManager / SignalManager stay uninstrumented there (their signal-handler protocol is C30's subject)
+    wraps = [w[len("--wrap="):] for w in WRAP[len("-Wl,"):].split(",")]
+    so = build_vsim_race(out, proc=True, wraps=wraps)
+    rplain = ["-O1", "-g", "-DNDEBUG", "-DVSIM_PROC", "-DVSIM_RACE", "-ftrivial-auto-var-init=pattern", '-DVERSION="verif"', "-DTFEL_ARCH64", "-DHAVE_FENV"] + inc
+    rinst = rplain + ["-fsanitize=thread"]
+    runits = []
+    for src, fl in units:
+        if src.endswith("vsim.cpp"):
+            continue
+        base = os.path.basename(src)
+        instrumented = src.startswith(tc) or base in ("h52.cpp", "ThreadPool.cxx", "ThreadedTaskResult.cxx")
+        extra = [f for f in fl if f.startswith("-Dmain=") or f.startswith("-DinitDSLs") or f.startswith("-DinitInterfaces")]
+        runits.append((src, (["-O1", "-g", "-DNDEBUG"] + inc) if src.endswith(".c") else ((rinst if instrumented else rplain) + extra)))
+    robjs = compile_objects(os.path.join(out, "race"), runits)
+    rexe = link(os.path.join(out, "h52_race"), robjs, ["-rdynamic", WRAP, so, "-Wl,-rpath," + out] + libs + ["-ldl", "-lpthread"])
+    return {"asan": exe, "race": rexe}
 
 
 def signature(rec):
@@ -54,11 +70,11 @@ def signature(rec):
 
 def main():
     args = parse_args(PID)
-    exe = build()
+    exes = build()
     wd = fresh_workdir(PID)
     try:
         spec = dict(
-            pid=PID, level="exploration", binaries={"asan": (exe, ["--workdir", wd])}, runs={"quick": 2000, "thorough": 100000}, thorough_budget_s=900, chunk=40,
+            pid=PID, level="exploration", binaries={v: (e, ["--workdir", wd]) for v, e in exes.items()}, runs={"quick": 2000, "thorough": 100000}, variant_runs={"race": 600} if args.tier == "quick" else {}, thorough_budget_s=900, chunk=40,
             signature=signature, param_min=[1, 0, 0],
             nontrivial=lambda r: r.get("ctr", {}).get("fork", 0) >= 1 and r.get("ctr", {}).get("context_switches", 0) >= 4,
             rule="one run = one seeded set of .check files (1..6 quick / 1..12 thorough, in 1..3 directories; commands exiting 0 / k / by a signal / failing to exec, with or without shall_fail, expected_output checks that match or not, "
